@@ -57,6 +57,7 @@ def generate(ctx):
                               names=[(m["name"].hex() or "=") for m in c["members"]], lens=[m["length"] for m in c["members"]],
                               digests=[digest(m["data"]) for m in c["members"]], spans=any("block" in x for x in c["meta"].get("cuts", [])),
                               nontrivial=True)
+    yield from param_mismatch(ctx)
     # refused joins
     for k in range(n):
         a = gen_set(rng, rng.choice([2, 3])); b = gen_set(rng, 2)
@@ -95,6 +96,48 @@ def generate(ctx):
             closes = [f"close i0 h{j}" for j in range(na)] + [f"close i0 h{na + j}" for j in range(len(bn))]
         lines += closes + ["destroy i0"]
         yield lines, dict(family="cab.refused", scenario=scen, nwatch=len(watch), npre=len(pre), nontrivial=True)
+
+def first_folder_offset(cab):
+    """offset of the first CFFOLDER entry of a cabinet file"""
+    import struct
+    flags = struct.unpack_from("<H", cab, 30)[0]; p = 36
+    if flags & 4:
+        hres = struct.unpack_from("<H", cab, 36)[0]; p = 40 + hres
+    for bit in (1, 2):
+        if flags & bit:
+            for _ in range(2): p = cab.index(b"\0", p) + 1
+    return p
+
+def param_mismatch(ctx):
+    """two parts that fit in everything except the parameter bits of the split folder's compression type
+    (LZX window size, Quantum window size, unused bits for stored/MSZIP): `mismatched split folders`"""
+    import struct
+    rng = ctx.rng
+    n = 8 if ctx.tier == "quick" else 80
+    done = 0
+    for _ in range(n * 6):
+        if done >= n: break
+        c = gen_set(rng, 2)
+        if c is None or not all("block" in x for x in c["meta"].get("cuts", ["folder"])): continue
+        names = c["meta"]["order"]
+        which = rng.choice([0, 1])                    # alter the left half's last folder or the right half's first folder
+        cab = bytearray(c["files"][names[which]])
+        p = first_folder_offset(cab)
+        if which == 0: p += 8 * (struct.unpack_from("<H", cab, 26)[0] - 1)
+        (res,) = (struct.unpack_from("<B", cab, 38) if struct.unpack_from("<H", cab, 30)[0] & 4 else (0,))
+        if which == 0: p += res * (struct.unpack_from("<H", cab, 26)[0] - 1)
+        ct = struct.unpack_from("<H", cab, p + 6)[0]
+        method, bits = ct & 15, (ct >> 8) & 31
+        if method == 3: nb = rng.choice([b for b in range(15, 22) if b != bits])
+        elif method == 2: nb = rng.choice([b for b in range(10, 22) if b != bits])
+        else: nb = bits ^ rng.choice([1, 2, 16])
+        struct.pack_into("<H", cab, p + 6, (ct & ~0x1F00) | (nb << 8))
+        files = dict(c["files"]); files[names[which]] = bytes(cab)
+        bad = rng.choice(["append i0 h0 h1", "prepend i0 h1 h0"])
+        lines = [f"file {nm} {files[nm].hex()}" for nm in names] + ["new cab"] + [f"open i0 {nm}" for nm in names]
+        lines += ["dump i0 h0", "dump i0 h1", bad, "dump i0 h0", "dump i0 h1", "close i0 h0", "close i0 h1", "destroy i0"]
+        done += 1
+        yield lines, dict(family="cab.refused", scenario="split-folder-params", method=method, bits=[bits, nb], altered=which, nwatch=2, npre=0, nontrivial=True)
 
 def dumps(blocks):
     return [b for b in blocks if b[0].startswith("dump")]
